@@ -19,7 +19,7 @@ theorem shapes :
     Sticky.isLiveOk = true ∧ Sticky.closeEntryOnce = true ∧ Sticky.endingPathsClose = true ∧
     Sticky.getSteps = ["missing", "expired", "principal"] ∧ Sticky.expiryStrict = true ∧
     Sticky.sealCallOk = true ∧ Sticky.sealChecksSidLen = true ∧ Sticky.maxServerIdLen = 255 ∧
-    Sticky.tokenHeaderHandlingOk = true ∧ Sticky.lostSkipsDispatch = true ∧ Sticky.openBodyOk = true ∧
+    Sticky.tokenHeaderHandlingOk = true ∧ Sticky.lostSkipsDispatch = true ∧ Sticky.openBodyOk = true ∧ Sticky.ttlDefaultOnFalsy = false ∧
     Sticky.drainCompares = ["e.expires_at < now"] ∧
     Sticky.deleteExits = [("no_header", 200, false), ("open_failed", 200, false), ("server_id", 200, false),
       ("registry_miss", 200, false), ("hit", 204, true)] ∧
@@ -167,8 +167,9 @@ theorem step_WInv (cfg : Nat → Cfg) (N : Nat) (wk : Nat) (hwk : wk < N) (ident
           · rename_i hseal
             exact ⟨⟨hm, ND_insert hnd _, gfe _ rfl, gfm, gpk _ rfl⟩, Nat.le_succ _, fun _ h => Or.inl h, fun _ h => h⟩
           · rename_i hseal
-            have hseal' : sealOk (cfg wk) W.env.now (W.env.now + ttl.getD (cfg wk).defaultTtl) = true := by
-              simpa using hseal
+            have hseal' : sealOk (cfg wk) W.env.now (expiresOf W.env.now ttl (cfg wk).defaultTtl) = true := by
+              have : openSealOk (cfg wk) W.env.now ttl = true := by simpa using hseal
+              exact (openSealOk_seal this).1
             refine ⟨⟨?_, ND_insert hnd _, gfe _ rfl, ?_, ?_⟩, Nat.le_succ _, ?_, ?_⟩
             · intro m hmm
               rcases List.mem_append.mp hmm with h | h
@@ -741,6 +742,48 @@ theorem C25_delete_uniform {Wire : Type} [DecidableEq Wire] (C : Codec Wire) (n 
   · exact Or.inl (by rw [hst, hhit])
   · exact Or.inr hst
 
+/-- **Expiry is open time + TTL.** A successful `open_session(state, ttl)` at time `now` registers the session with
+`expires_at = now + ttl` — the per-call TTL whenever one is given (also `0`: the session is expired as soon as the clock
+moves; also a negative one: born expired), the worker's default only for `ttl=None` — and seals the same instant into the
+token.  Together with `C25_dispatch` ("… and `now ≤ expires`"): past that instant the token no longer gives access. -/
+theorem C25_expiry (cfg : Cfg) (wk : Nat) (ident : Identity) (c : Nat) (W : World) (rs : RS) (l : Nat) (ttl : Option Int) (sid : Bytes)
+    (h : (stepAction cfg wk ident c W rs (.open l ttl)).2.2 = .opened sid) :
+    ∃ e ∈ (stepAction cfg wk ident c W rs (.open l ttl)).1.reg.entries, e.sid = sid ∧ e.state = l ∧
+      (e.expires : Int) = (W.env.now : Int) + ttl.getD (cfg.defaultTtl : Int) ∧
+      ∃ m ∈ (stepAction cfg wk ident c W rs (.open l ttl)).1.mints, m.sid = sid ∧ m.expires = e.expires := by
+  have hshape : Sticky.ttlDefaultOnFalsy = false := by decide
+  simp only [stepAction, stepActionP] at h ⊢
+  by_cases c1 : (!rs.accept) = true
+  · rw [if_pos c1] at h; cases h
+  · rw [if_neg c1] at h ⊢
+    by_cases c2 : rs.sc.isSome = true
+    · rw [if_pos c2] at h; cases h
+    · rw [if_neg c2] at h ⊢
+      by_cases c3 : (Sticky.drainCheckFirst && W.reg.draining) = true
+      · rw [if_pos c3] at h; cases h
+      · rw [if_neg c3] at h ⊢
+        by_cases hseal : (!openSealOk cfg W.env.now ttl) = true
+        · rw [if_pos hseal] at h; cases h
+        · rw [if_neg hseal] at h
+          have hs : openSealOk cfg W.env.now ttl = true := by simpa using hseal
+          have hnn := (openSealOk_seal hs).2
+          rw [if_neg hseal]
+          simp only [ActOut.opened.injEq] at h
+          refine ⟨⟨sidOfCtr W.env.sidCtr, expiresOf W.env.now ttl cfg.defaultTtl, pkey ident, l, c⟩,
+            Reg.mem_insert.mpr (Or.inr rfl), h, rfl, ?_, ?_⟩
+          rotate_left
+          · refine ⟨_, List.mem_append.mpr (Or.inr (List.mem_singleton.mpr rfl)), ?_, ?_⟩
+            · exact h
+            · rfl
+          have heff : effTtl ttl cfg.defaultTtl = ttl.getD (cfg.defaultTtl : Int) := by
+            unfold effTtl
+            cases ttl with
+            | none => rfl
+            | some t => simp [hshape]
+          rw [← heff]
+          simp only [expiresOf]
+          omega
+
 /-- the three RPC routes of a method, relative to the app prefix -/
 def rpcPaths (m : List Char) : List (List Char) := ['/' :: m, '/' :: m ++ "/init".toList, '/' :: m ++ "/exchange".toList]
 
@@ -762,7 +805,8 @@ theorem C25_routes {Wire : Type} [DecidableEq Wire] (C : Codec Wire) (cfg : Cfg)
     have e1 := not_exempt_one "health".toList m sfx (by decide) hslash h1 hs
     have e2 := not_exempt_one "__session__".toList m sfx (by decide) hslash h2 hs
     unfold exemptPath
-    rw [shapes.2.2.2.2.2.2.2.2.2.2.2.2.2.2.2.2.2.2.2.2.1, shapes.2.2.2.2.2.2.2.2.2.2.2.2.2.2.2.2.2.2.2.2.2.2, hpath]
+    rw [show Sticky.exemptSuffixes = ["/health", "/__session__"] from by decide,
+      show Sticky.exemptCompare = "eq_or_subtree" from by decide, hpath]
     simp only [List.any_cons, List.any_nil, Bool.or_false]
     have t1 : ("/health" : String).toList = '/' :: "health".toList := rfl
     have t2 : ("/__session__" : String).toList = '/' :: "__session__".toList := rfl
